@@ -728,7 +728,10 @@ class DiHypergraph:
 
         format1, format2, format3, format4 = False, False, False, False
 
-        if (
+        if len(first_edge) == 3 and isinstance(list(first_edge)[2], dict):
+            # (members, id, attributes): the id may itself be iterable (a tuple, a frozenset)
+            format4 = True
+        elif (
             isinstance(second_elem, Iterable)
             and not isinstance(second_elem, str)
             and not isinstance(second_elem, dict)
